@@ -107,12 +107,15 @@ def call_getter(obj, spec: dict, getter: str):
     raise HarnessError(f"unknown getter {getter} for {spec}")
 
 
-def observe(obj, spec: dict, getter: str) -> str:
+def observe(obj, spec: dict, getter: str, keep: list = None) -> str:
     """Digest of a getter's value; an exception is an observation too (C08 is about sameness, not about success)."""
     try:
         with quiet():
             val = call_getter(obj, spec, getter)
-        return digest_any(val)
+        dg = digest_any(val)
+        if keep is not None and len(keep) < 10:
+            keep.append((spec_key(spec), getter, val, dg))  # the caller goes on holding what it was given
+        return dg
     except HarnessError:
         raise
     except Exception as e:  # noqa: BLE001
@@ -469,6 +472,7 @@ class SessionCheck(Check):
         sig = []
         compared = 0
         max_live = 0
+        held = []
         with World(rng_init=rng_init) as world:
             if in_child:
                 pass  # the restart fault's own rng_init list has been applied by child_history
@@ -545,7 +549,7 @@ class SessionCheck(Check):
                         continue  # shrinking may remove the create
                     spec, obj, hist = live[op["slot"]]
                     getter = op["getter"]
-                    got = obj if isinstance(obj, str) else observe(obj, spec, getter)
+                    got = obj if isinstance(obj, str) else observe(obj, spec, getter, held if step % 2 == 0 else None)
                     ref = self.reference[spec_key(spec) + "|" + getter]
                     compared += 1
                     if getter in hist:
@@ -587,6 +591,14 @@ class SessionCheck(Check):
                     sig.append(("prefix", alg, N, M, op["order"]))
                 else:
                     raise HarnessError(f"unknown op {kind}")
+        # a getter is pure: calling another getter afterwards must not change what an earlier one handed out
+        for skey, getter, val, dg in held:
+            if digest_any(val) != dg:
+                raise Violation("reproducibility", f"the value {getter} of {skey} returned earlier in this history was "
+                                                   f"changed by later getter calls (the library overwrote an object it "
+                                                   f"had handed out)")
+        if held:
+            probes["returned_values_rechecked_at_end"] = len(held)
         nontrivial = compared >= 1 and (sum(faults.values()) >= 1 or max_live >= 2)
         return {"events": log.n, "fingerprint": log.digest(), "faults": faults, "probes": probes,
                 "sig": repr(sig), "nontrivial": nontrivial, "compared": compared,
